@@ -317,7 +317,7 @@ func c06Hostile(r *rand.Rand, it *c06TLSItem) ([]byte, string) {
 }
 
 func TestVerifC06(t *testing.T) {
-	m := vk.NewMonitor("C06", "", "exploration",
+	m := vk.NewMonitor("C06", "main", "exploration",
 		"independently generated inputs (crypto/tls handshakes, own ClientHello encoder with GREASE/padding/32-byte session ids/two SNI entries/SNI position, "+
 			"HTTP/1 heads from a method x header order x case x Host form table, own RFC 9001/9369 Initial encoder scattering CRYPTO frames over 1-4 datagrams, real quic-go first flights) "+
 			"and hostile ones (random, every truncation, bit flips, damaged length fields, buffer-filling records) x chunkings (every 2-cut, random 3-6 cuts, delays 0/short/>timeout, EOF) x drain paths; "+
